@@ -259,7 +259,9 @@ func runC01(c *an.Ctx) {
 	c01Writers(c)
 	c01AndroidMetric(c)
 	c01InitialMW(c)
-	c.Floor("C01-R25", 1)
+	if c.Config.GOOS == "" || c.Config.GOOS == "linux" {
+		c.Floor("C01-R25", 1) // the bind-to-device listener exists on Linux only
+	}
 	c01WriteDeadline(c)
 	if n := sharedSetReplyKeepsRcode(c, "C01-R24"); n < 3 {
 		c.Und("C01-R24", "SetReply on existing responses", token.NoPos, "only %d SetReply calls found", n)
